@@ -2,7 +2,8 @@
     Property theorems only; proofs live in Proofs/MethodLemmas.v (and the files of C03 / C01). *)
 From Coq Require Import List QArith Reals Qreals Lra Arith Bool.
 From PV Require Import Base.IPS Model.Dict Model.Terms Model.Sent Model.Cvxpy Model.Method Spec.Sem Spec.World Spec.KKT
-  Proofs.MethodLemmas Proofs.C09Bound.
+  Model.ClassGen Spec.Classes Proofs.MethodLemmas Proofs.C09Bound Proofs.C03Core Proofs.C09Compose.
+From PV Require Import Gen.Classes.
 Import ListNotations.
 Local Open Scope R_scope.
 
@@ -42,7 +43,7 @@ Proof. exact (@wrun_free_leaf). Qed.
     SDP, and any dual certificate (C01: identity, signs, PSD multipliers) bounds the objective. *)
 Theorem C09_real_valuation_bounded :
   forall (E : ips) (rho : nat -> E) (phi : nat -> R)
-         (np : nat) (obj : edict) (tracked : sent) (duals : list dval) (res : list (list Q)) (tau : R),
+         (np : nat) (obj : edict) (tracked : sent) (duals : list Cvxpy.dval) (res : list (list Q)) (tau : R),
     length duals = length tracked ->
     certificate_identity obj (combine tracked duals) res tau ->
     dual_feasible (combine tracked duals) ->
@@ -57,7 +58,7 @@ Proof. exact (@real_valuation_bounded). Qed.
 Theorem C09_performance_bounded :
   forall (E : ips) (rho : nat -> E) (phi : nat -> R) (o np : nat)
          (metrics : list (item * edict)) (others : sent)
-         (duals : list dval) (res : list (list Q)) (tau t : R),
+         (duals : list Cvxpy.dval) (res : list (list Q)) (tau t : R),
     let tracked := map fst metrics ++ others in
     length duals = length tracked ->
     certificate_identity [(KF o, 1%Q)] (combine tracked duals) res tau ->
@@ -70,15 +71,45 @@ Theorem C09_performance_bounded :
     t <= tau.
 Proof. exact (@performance_bounded). Qed.
 
+
+(** Composition with C03, over the class plans and formulas REGENERATED from the sources: for ANY run
+    (free points, stationary points, evaluations at arbitrary combinations; any length) of ANY method on
+    any real function of the class, every interpolation constraint PEPit generates from what it recorded
+    holds at the values of the run.  Two instances: a differentiable class and a non-differentiable one
+    (the other classes compose in the same way through their C03 theorem). *)
+Theorem C09_run_satisfies_class_constraints_smooth_strongly_convex :
+  forall (E : ips) (mu L : R) (qmu qL : Q) (F : @dfn E) (xs : E)
+         (Hxs : veq (dgrad F xs) vzero) (Hext : respects_veq F) (ops : list mop) (vs : (nat -> E) * (nat -> R)),
+    0 <= mu < L -> smooth_strongly_convex_member mu L F ->
+    Q2R qL = L -> Q2R qmu = mu ->
+    mwf ops minit = true -> Forall op_nodup ops ->
+    let W := dfn_world F xs Hxs Hext in
+    let par := fun p => match p with 0%nat => qL | 1%nat => qmu | _ => 0%Q end in
+    all_satisfied (fst (wrun W ops minit vs)) (snd (wrun W ops minit vs))
+      (run_plan plan_SmoothStronglyConvexFunction (fstate_of par (mrun ops minit) 0)).
+Proof. exact (@run_satisfies_smooth_strongly_convex). Qed.
+
+Theorem C09_run_satisfies_class_constraints_convex :
+  forall (E : ips) (F : @fn E) (sel : E -> E) (Hsel : forall x, subgrad F x (sel x))
+         (xs : E) (Hxs : subgrad F xs vzero) (Hext : fn_respects_veq F) (ops : list mop) (vs : (nat -> E) * (nat -> R)),
+    mwf ops minit = true -> Forall op_nodup ops ->
+    let W := fn_world F sel Hsel xs Hxs Hext in
+    all_satisfied (fst (wrun W ops minit vs)) (snd (wrun W ops minit vs))
+      (run_plan plan_ConvexFunction (fstate_of (fun _ => 0%Q) (mrun ops minit) 0)).
+Proof. exact (@run_satisfies_convex). Qed.
+
 (** Non-vacuity: two gradient steps x1 = x0 - 1/2 g0, x2 = x1 - 1/2 g1 on a leaf function, run in the
     world "f(x) = x^2 on the real line": the program is well formed and records two samples. *)
 Example C09_example_program :
-  let ops := [MFresh; MEval 0 [(0%nat, 1%Q)]; MEval 0 [(0%nat, 1%Q); (1%nat, (-1 # 2)%Q)]] in
-  mwf ops minit = true /\ length (m_samples (mrun ops minit)) = 2%nat.
-Proof. cbv zeta. split; vm_compute; reflexivity. Qed.
+  let ops := [MStat 0; MFresh; MEval 0 [(1%nat, 1%Q)]; MEval 0 [(1%nat, 1%Q); (2%nat, (-1 # 2)%Q)]] in
+  mwf ops minit = true /\ length (m_samples (mrun ops minit)) = 3%nat
+  /\ length (g_cons (run_plan plan_SmoothStronglyConvexFunction (fstate_of (fun _ => 1%Q) (mrun ops minit) 0))) = 6%nat.
+Proof. cbv zeta. split; [|split]; vm_compute; reflexivity. Qed.
 
 Print Assumptions C09_recorded_samples_are_genuine.
 Print Assumptions C09_existing_leaves_keep_values.
 Print Assumptions C09_free_leaves_keep_values.
 Print Assumptions C09_real_valuation_bounded.
 Print Assumptions C09_performance_bounded.
+Print Assumptions C09_run_satisfies_class_constraints_smooth_strongly_convex.
+Print Assumptions C09_run_satisfies_class_constraints_convex.
